@@ -65,6 +65,17 @@ FOCUS = {
        "returned an error. (3) Slips in ERROR paths and early returns: the function reports the right error but leaves "
        "something changed, returns Ok where one particular kind of argument needs Err (or the reverse), or skips the cleanup "
        "after an early `?`. The change itself must still be a small, plausible slip in ONE place.",
+    9: "ROUND 9. The earlier rounds went for unusual calls and call histories; this round goes for unusual VALUES and for PAIRS "
+       "of options. List the branches (match arms, if / else, early returns, loop exits) of the functions in the property's "
+       "area and pick branches that only a particular value reaches: boundary characters (U+0009 / U+000A / U+000D, U+0020, "
+       "U+007F, U+0085, U+00A0, U+2028, U+D7FF / U+E000, U+FFFD, U+10000 and above, combining marks, characters whose "
+       "UTF-8 length differs from their char count), strings that look like markup or like names the library generates or "
+       "reserves (n0, n1, xml, xmlns, xml:space, xml:id), inputs that are equal but not identical (the same expanded name "
+       "through different prefixes, URIs that differ only in case or by a trailing slash, names that differ only in letter "
+       "case), empty versus absent (Some(\"\") versus None, an empty text node versus no node, xmlns=\"\" versus no "
+       "declaration), a collection exactly at a threshold the code treats specially, and two options or parameters combined "
+       "(indentation with CDATA-section elements, unescaped_gt with a normalizer, a declaration with a doctype, a suppress "
+       "list with xml:space, consolidation off with a repair call). The change must be ONE small, plausible edit.",
 }
 for pid in want:
     wt = "/tmp/wt%d-%s" % (rnd, pid)
